@@ -6,6 +6,7 @@ import compfacts
 import keepalive
 import serverfacts
 import tlsfacts
+import batchfacts
 
 GENERATORS = [
     ('Backoff.v', backoff.generate),
@@ -16,6 +17,7 @@ GENERATORS = [
     ('KeepAliveFacts.v', keepalive.generate),
     ('ServerFacts.v', serverfacts.generate),
     ('TlsFacts.v', tlsfacts.generate),
+    ('BatchFacts.v', batchfacts.generate),
 ]
 
 if __name__ == '__main__':
